@@ -18,7 +18,8 @@ TNext ==
      THEN LET r == CApply(st, Rec[l], l) IN
             /\ st' = r.st
             /\ viol' = viol \cup {<<x[1], x[2], l>> : x \in r.bad}
-     ELSE UNCHANGED <<st, viol>>
+     ELSE /\ st' = CApplyLo(st, Rec[l])
+          /\ UNCHANGED viol
   /\ l' = l + 1
 
 TSpec == TInit /\ [][TNext]_vars
